@@ -91,7 +91,7 @@ static void case_begin(void)
 	memset(cs, 0, sizeof cs);
 	ntrig = npact = 0; nphase = 1;
 	cfg_hints = 8; cfg_pool = 0;
-	alarm(20);
+	alarm(8);
 }
 
 static void case_line(char *line)
@@ -288,10 +288,17 @@ static int evflags_poll(int re)
 }
 static int idof(int fd) { return (fd >= 0 && fd < MAXFD) ? fd2id[fd] : -1; }
 static void stuck(void) { g_stuck = 1; printf("K stuck\n"); muggle_evloop_exit(g_ev); }
+/* a loop that keeps calling the kernel without ever exiting (e.g. a readable fd nobody reads) */
+static int g_kcalls;
+static void kcall(void)
+{
+	if (++g_kcalls > 3000) { printf("K runaway\n"); printf("END\n"); fflush(stdout); _exit(77); /* 77: the batch runner restarts with the next case */ }
+}
 
 int __wrap_poll(struct pollfd *fds, nfds_t nfds, int timeout)
 {
 	if (!g_loop_active) return __real_poll(fds, nfds, timeout);
+	kcall();
 	int idle = 0;
 	int r = __real_poll(fds, nfds, 0);
 	if (r == 0) { idle = 1; g_idle = 1; muggle_evloop_wakeup(g_ev); r = __real_poll(fds, nfds, 2000); }
@@ -320,6 +327,7 @@ static void print_set(int nfds, fd_set *s, int flag)
 int __wrap_select(int nfds, fd_set *rs, fd_set *ws, fd_set *es, struct timeval *tv)
 {
 	if (!g_loop_active) return __real_select(nfds, rs, ws, es, tv);
+	kcall();
 	fd_set in = *rs;
 	struct timeval z = { 0, 0 };
 	int idle = 0;
@@ -350,6 +358,7 @@ int __wrap_epoll_ctl(int epfd, int op, int fd, struct epoll_event *event)
 int __wrap_epoll_wait(int epfd, struct epoll_event *events, int maxevents, int timeout)
 {
 	if (!g_loop_active) return __real_epoll_wait(epfd, events, maxevents, timeout);
+	kcall();
 	int idle = 0;
 	int r = __real_epoll_wait(epfd, events, maxevents, 0);
 	if (r == 0) { idle = 1; g_idle = 1; muggle_evloop_wakeup(g_ev); r = __real_epoll_wait(epfd, events, maxevents, 2000); }
@@ -402,7 +411,7 @@ static void run_one(int be)
 	muggle_evloop_set_cb_wake(g_ev, on_wake);
 	muggle_evloop_set_cb_clear(g_ev, on_clear);
 	muggle_evloop_set_cb_exit(g_ev, on_exit_cb);
-	g_idle = 0; g_phase = 0; g_be = be; g_stuck = 0;
+	g_idle = 0; g_phase = 0; g_be = be; g_stuck = 0; g_kcalls = 0;
 	run_phase(0);
 	g_loop_active = 1;
 	muggle_evloop_run(g_ev);
